@@ -489,3 +489,29 @@ func (g *gen) runH3Stream() {
 		g.drop(s)
 	}
 }
+
+// N. trailers: a trailer field sent after the body (chunked / HEADERS after DATA) is there once the body
+// was read to its clean end - whether a decoder sits on the body or not, for every read pattern.
+func (g *gen) runTrailers() {
+	r, rng := g.r, g.rng.Fork()
+	const bin = "application/octet-stream"
+	n := 0
+	for _, p := range []payload{{"text900", textish(rng, 900)}, {"text70k", textish(rng, 70000)}, {"empty", nil}} {
+		for _, c := range []coding{codings[0], codings[1], codings[2], codings[3], codings[4], codings[6], codings[10]} {
+			s := g.newScript(p, c, false, bin)
+			s.Trailer = fmt.Sprintf("sum-%d", s.ID)
+			for _, st := range stacks {
+				for _, cf := range cfgs {
+					k := reqKinds[0]
+					if n%5 == 4 {
+						k = reqKinds[1]
+					}
+					g.one(exchange{Stack: st, Cfg: cf, Req: k, S: s, Pat: readPats[n%len(readPats)]})
+					r.Count("trailer.stack=" + st)
+					n++
+				}
+			}
+			g.drop(s)
+		}
+	}
+}
